@@ -113,7 +113,7 @@ CHECKS = {
              "get_root_units, to_root_units, get_base_units, prefixed units, compatible-unit listings, number of active contexts) must equal what the model's stack "
              "implies; a failing activation must raise and change nothing; after unwinding, the battery must equal the one recorded before the first activation. "
              "Random sequences up to 25 operations and a shared-Context check (two registries, re-entry with other parameters) complete it.",
-        note="One known finding (base-units cache across context stacks) is excluded by construction and counted. Units defined while a redefining context is active are C13's clause.",
+        note="The former known finding (base-units cache across context stacks) is repaired in /repo (1d885d8) and checked like everything else. Units defined while a redefining context is active are C13's clause.",
         design="5/C12"),
     "C13": dict(
         technique="model-based (stateful) testing with Hypothesis operation sequences: every answer of a long-lived registry is compared with the answer of a twin built fresh from the declarative state (differential against a fresh registry), each question put to an untouched copy of the twin; registry-isolation differential",
@@ -123,7 +123,7 @@ CHECKS = {
              "None, group edits, building and using a second registry). After each state change a twin is built from the definition text plus the logged "
              "definitions and settings; subject and twin must agree on every answer, and a brand-new registry replays the final state. A second tier does the "
              "same on the bundled registry (contexts and systems), a third checks that nothing done to a second registry changes the first.",
-        note="Four known findings are excluded by construction/narrow class: units from define() missing in compatible-unit listings, definitions made inside a redefining context, base-units cache across context stacks, double prefixes. Deep copy is used to hand every question an untouched twin.",
+        note="Three known findings are excluded by construction/narrow class: units from define() missing in compatible-unit listings, definitions made inside a redefining context, double prefixes (the base-units cache across context stacks is repaired in /repo, 1d885d8). Deep copy is used to hand every question an untouched twin.",
         design="5/C13"),
     "C14": dict(
         technique="complete enumeration of every unit x every declared system against allowed-unit sets and exact factors from an independent definition reader; Hypothesis compound quantities, generated systems (both rule forms, power-of-root units) and model-based group/system edit histories checked against an own closure model",
